@@ -32,12 +32,10 @@ def sortedBy (le : Nat → Nat → Bool) : List Nat → Bool
 def stepUnstable (cx : Ctx) (rc : Recv) (op : String) (args : List String) (robs : RObs) : Option MOut :=
   let m := cx.m
   let data := cx.prev.data
-  let le8 (a b : Nat) : Bool := a % 8 ≤ b % 8
-  let leNat (a b : Nat) : Bool := a ≤ b
   match args with
   | [k] => do
     let k ← nat? k
-    let le := if op.endsWith "_ord" then leNat else le8
+    let le := sortLe op
     let byRow := (op.splitOn "_row").length > 1
     let line : Res (List Nat) :=
       if byRow then do
